@@ -31,6 +31,10 @@ TRUSTED = [
     "MeanPopRank.__init__ (pandas rank(method='average')) is modelled by hand (quantile), its statement order is pattern-checked by the "
     "translator; item_stats counts are recomputed by the harness from the generated interactions",
     "NumPy / pandas / ItemList / Dataset internals are exercised, not verified; the discount function is tabulated by calling it",
+    "the model takes identifier lists and gains: that the result does not depend on how the ItemLists store them (numbers, vocabularies, "
+    "field dtype / backing) nor on earlier calls, and that measure_list leaves its arguments unchanged, is observed by the harness "
+    "(oracle keys definition:*, repeat:*, inputs-mutated:*), not proved; the translator rejects vocabulary / numbers access and "
+    "np.require(..., requirements=) in the metric bodies",
 ]
 ASSUMPTIONS = [
     "recommendation lists and test lists have distinct item ids (pandas reindex rejects duplicate test ids)",
@@ -43,7 +47,14 @@ RULE = ("structured generator: ordered recommendation list of 0-14 ids and a tes
         "zeros, or float32-inexact values), cutoff k from {none, 1..16} placed below, between and above the two lengths (0 rarely), "
         "patience from dyadic values, the default 0.85, 0 and 1, discounts log2 (default), ln, rank (integer-valued), sqrt, a persistent "
         "table view and a non-monotone one; integer or string ids; a small interaction data set for MeanPopRank; malformed stream: "
-        "unordered lists with a cutoff, graded metrics without a gain field.  Every case measures 11-13 metric instances.  "
+        "unordered lists with a cutoff, graded metrics without a gain field.  Representation of the two lists (the metrics are "
+        "functions of identifiers and gains alone): identifiers only / identifiers + Vocabulary / item numbers + Vocabulary per list, "
+        "the same Vocabulary object, an equal copy, a differently numbered one or a vocabulary on one list only, identifiers the "
+        "vocabulary does not know on either or both lists; gain field float64 / writable float32 / read-only float32 NumPy, Arrow, "
+        "torch, Python list, via from_df or from_arrow; recommendations with or without a score field.  Every case measures 10-12 "
+        "metric instances in a call sequence: each on lists never used before, then all on ONE pair of list objects three times over, "
+        "with an ideal ranking, an exchanged ranking and another test list measured in between; every call is compared with the "
+        "definition and the lists are compared with never-measured twins afterwards.  "
         "non-trivial = ordered list of >= 3 recommendations with at least one relevant and one irrelevant item, >= 2 test items, "
         "no error outcome; distinct = by hash of the case")
 
@@ -144,7 +155,81 @@ def gen_case(rng, malformed=False, big=False):
     pairs = [(p, q) for p in range(len(recs)) for q in range(p + 1, len(recs))
              if recs[p] not in tg and recs[q] in tg]
     case["swap"] = list(rng.choice(pairs)) if pairs else None
+    case["rep"] = gen_rep(rng.fork("rep"), case)
     return case
+
+
+UNIVERSE = list(range(1, 40))          # every id a generated list can contain (POOL and the thorough tier's extension)
+PLAIN_REP = {"style": "plain", "recs": "ids", "test": "ids", "vocab": None, "vocab2": None, "gdtype": "f64", "rscores": False}
+GDTYPES = [("f64", 4), ("f32w", 4), ("f32ro", 1), ("arrow32", 1), ("arrow64", 1), ("torch32", 1), ("list", 1),
+           ("df32", 1), ("df64", 1), ("tbl32", 1), ("tbl64", 1)]
+
+
+def gen_rep(rng, case):
+    """How the two lists are REPRESENTED (the metrics are functions of the identifiers and gains alone):
+    per list `ids` (identifiers only), `idv` (identifiers + a Vocabulary, which need not know all of them) or `numv`
+    (item numbers + a Vocabulary, no identifiers); the two vocabularies are the same object (`shared`), equal copies
+    (`copy`) or number the items differently (`diff`); `mixed` = only one list has one.  The gain field is a float64 /
+    writable float32 / read-only float32 NumPy array, an Arrow array, a torch tensor, a Python list, or comes from
+    ItemList.from_df / from_arrow; the recommendations optionally carry a score field."""
+    recs, tids = list(case["recs"]), [i for i, _ in case["test"]]
+    style = rng.weighted([("plain", 5), ("shared", 5), ("copy", 1), ("diff", 2), ("mixed", 1)])
+    rep = dict(PLAIN_REP)
+    rep["style"] = style
+    rep["gdtype"] = rng.weighted(GDTYPES)
+    rep["rscores"] = rng.chance(1, 3)
+    if style == "plain":
+        return rep
+    st = lambda: rng.weighted([("idv", 2), ("numv", 1)])  # noqa: E731
+    if style == "mixed":
+        if rng.chance(1, 2):
+            rep["recs"] = st()
+        else:
+            rep["test"] = st()
+    else:
+        rep["recs"], rep["test"] = st(), st()
+    # identifiers the vocabulary does not know: only lists that keep their identifiers can contain them
+    can_r = recs if rep["recs"] == "idv" else []
+    can_t = tids if rep["test"] == "idv" else []
+    must = set(recs if rep["recs"] == "numv" else []) | set(tids if rep["test"] == "numv" else [])
+    mode = rng.weighted([("none", 2), ("both-sides", 4), ("random", 2)])
+    unknown = set()
+    if mode == "both-sides":
+        if can_r:
+            unknown.add(can_r[0] if rng.chance(1, 2) else rng.choice(can_r))
+            if rng.chance(1, 3):
+                unknown.add(rng.choice(can_r))
+        if can_t:
+            unknown.update(rng.sample(can_t, min(len(can_t), rng.randint(1, 2))))
+    elif mode == "random":
+        cand = sorted(set(can_r) | set(can_t))
+        if cand:
+            unknown.update(rng.sample(cand, min(len(cand), rng.randint(1, 4))))
+    unknown -= must
+    keys = [i for i in UNIVERSE if i not in unknown]
+    if rng.chance(1, 2):
+        keys = rng.shuffle(keys)                   # numbers are not in identifier order
+    rep["vocab"] = keys
+    if style == "diff":
+        k2 = list(reversed(keys))
+        if rng.chance(1, 2):
+            k2 = rng.shuffle(k2 + sorted(unknown))  # the second vocabulary knows every item
+        rep["vocab2"] = k2
+    return rep
+
+
+def rep_of(case):
+    return case.get("rep") or PLAIN_REP
+
+
+def unknown_ids(case):
+    """(identifiers of the recommendations, of the test list) that the list's own vocabulary does not know."""
+    rep = rep_of(case)
+    vr = rep["vocab"] if rep["recs"] != "ids" else None
+    vt = (rep["vocab2"] or rep["vocab"]) if rep["test"] != "ids" else None
+    ur = [i for i in case["recs"] if vr is not None and i not in vr]
+    ut = [i for i, _ in case["test"] if vt is not None and i not in vt]
+    return ur, ut
 
 
 def gen_cases(rng, tier):
@@ -188,13 +273,14 @@ _TABLE = None
 
 
 def _setup():
-    global _ready, np, pd, ItemList, R, DatasetBuilder, _TABLE
+    global _ready, np, pd, pa, ItemList, Vocabulary, R, DatasetBuilder, _TABLE
     if _ready:
         return
     common.use_repo()
     import numpy as np
     import pandas as pd
-    from lenskit.data import DatasetBuilder, ItemList
+    import pyarrow as pa
+    from lenskit.data import DatasetBuilder, ItemList, Vocabulary
     from lenskit.metrics import ranking as R
     _TABLE = np.log2(np.arange(1, 65)) + 0.5
     _ready = True
@@ -222,15 +308,134 @@ def _ids(ids, kind):
     return np.array(ids, dtype=np.int64)
 
 
-def _recs(ids, case, ordered=None):
-    return ItemList(item_ids=_ids(ids, case["idkind"]), ordered=case["ordered"] if ordered is None else ordered)
+def _snap(x):
+    """JSON-able copy of something the caller handed to lenskit (to see whether a measurement changed it)."""
+    if isinstance(x, np.ndarray):
+        return [x.dtype.str, x.tolist()]
+    if isinstance(x, pd.DataFrame):
+        return {c: [str(x[c].dtype), x[c].tolist()] for c in x.columns}
+    if isinstance(x, pa.Table):
+        return {c: [str(x.schema.field(c).type), x.column(c).to_pylist()] for c in x.column_names}
+    if isinstance(x, (pa.Array, pa.ChunkedArray)):
+        return [str(x.type), x.to_pylist()]
+    if isinstance(x, Vocabulary):
+        return x.ids().tolist()
+    if hasattr(x, "detach"):
+        return [str(x.dtype), x.detach().tolist()]
+    return list(x)
 
 
-def _test(case):
-    ids = [i for i, _ in case["test"]]
-    if case["has_gain"]:
-        return ItemList(item_ids=_ids(ids, case["idkind"]), rating=np.array([float(fparse(g)) for _, g in case["test"]], dtype=np.float64))
-    return ItemList(item_ids=_ids(ids, case["idkind"]))
+def _view(il, fields):
+    """What a caller sees of an item list through its public interface."""
+    out = {"len": len(il), "ordered": bool(il.ordered), "ids": il.ids().tolist(),
+           "vocab": None if il.vocabulary is None else id(il.vocabulary)}
+    for f in fields:
+        a = il.field(f)
+        out[f] = None if a is None else [np.asarray(a).dtype.str, np.asarray(a).tolist()]
+    return out
+
+
+class _Lists:
+    """Builds the item lists of one case in the representation the case prescribes; every list of the case shares the
+    case's Vocabulary objects."""
+
+    def __init__(self, case):
+        self.case, self.rep, self.kind = case, rep_of(case), case["idkind"]
+        rep = self.rep
+        self.vr = self.vt = None
+        self.keys_r = self.keys_t = None
+        if rep["vocab"] is not None:
+            mk = lambda keys: Vocabulary(_ids(list(keys), self.kind), name="item", reorder=False)  # noqa: E731
+            self.vr = mk(rep["vocab"])
+            self.keys_r = rep["vocab"]
+            if rep["style"] == "copy":
+                self.vt, self.keys_t = mk(rep["vocab"]), rep["vocab"]
+            elif rep["vocab2"] is not None:
+                self.vt, self.keys_t = mk(rep["vocab2"]), rep["vocab2"]
+            else:
+                self.vt, self.keys_t = self.vr, self.keys_r
+        self.vsnap = [None if v is None else _snap(v) for v in (self.vr, self.vt)]
+
+    def make(self, which, ids, ordered=None, gains=None, scores=False):
+        """-> (ItemList, caller-owned buffers by name, field names)"""
+        rep, kind = self.rep, self.kind
+        store = rep[which]
+        V, keys = (self.vr, self.keys_r) if which == "recs" else (self.vt, self.keys_t)
+        if store == "numv" and any(i not in keys for i in ids):
+            store = "idv"                       # numbers exist for known items only
+        cols, bufs = {}, {}
+        if store == "numv":
+            pos = {k: n for n, k in enumerate(keys)}
+            cols["item_num"] = np.array([pos[i] for i in ids], dtype=np.int32)
+        else:
+            cols["item_id"] = _ids(list(ids), kind)
+        gd = rep["gdtype"] if which == "test" else "f64"
+        fields = []
+        if gains is not None:
+            vals = [float(fparse(g)) for g in gains]
+            f32 = gd.endswith("32") or gd in ("f32w", "f32ro")
+            if gd.startswith("arrow"):
+                g = pa.array(vals, pa.float32() if f32 else pa.float64())
+            elif gd == "torch32":
+                import torch
+                g = torch.tensor(vals, dtype=torch.float32)
+            elif gd == "list":
+                g = list(vals)
+            else:
+                g = np.array(vals, dtype=np.float32 if f32 else np.float64)
+                if gd == "f32ro":
+                    g.setflags(write=False)
+            cols["rating"] = g
+            fields.append("rating")
+        if scores:
+            cols["score"] = np.arange(len(ids), 0, -1).astype(np.float32) / 4
+            fields.append("score")
+        if which == "test" and gd.startswith("df"):
+            df = pd.DataFrame(cols)
+            bufs["frame"] = df
+            il = ItemList.from_df(df, vocabulary=V if store != "ids" else None)
+        elif which == "test" and gd.startswith("tbl"):
+            arrs = {}
+            for c, a in cols.items():
+                if c == "item_id":
+                    arrs[c] = pa.array(a.tolist(), pa.string() if kind == "str" else pa.int64())
+                else:
+                    arrs[c] = pa.array(a)
+            tbl = pa.table(arrs)
+            bufs["table"] = tbl
+            il = ItemList.from_arrow(tbl, vocabulary=V if store != "ids" else None)
+        else:
+            bufs.update(cols)
+            kw = {("item_nums" if c == "item_num" else "item_ids" if c == "item_id" else c): a for c, a in cols.items()}
+            if store != "ids":
+                kw["vocabulary"] = V
+            il = ItemList(ordered=self.case["ordered"] if ordered is None else ordered, **kw) if which == "recs" else ItemList(**kw)
+        return il, bufs, fields
+
+    def recs(self, ids, ordered=None):
+        return self.make("recs", ids, ordered=ordered, scores=self.rep["rscores"])
+
+    def test(self, pairs=None):
+        pairs = self.case["test"] if pairs is None else pairs
+        return self.make("test", [i for i, _ in pairs], gains=[g for _, g in pairs] if self.case["has_gain"] else None)
+
+
+class _Watched:
+    """An item list together with what the caller gave lenskit to build it and an identical twin that is never measured."""
+
+    def __init__(self, built, twin, name):
+        self.il, self.bufs, self.fields = built
+        self.twin, self.name = twin[0], name
+        self.snaps = {k: _snap(b) for k, b in self.bufs.items()}
+
+    def buffers_changed(self):
+        return [f"{self.name}.{k}" for k, b in self.bufs.items() if _snap(b) != self.snaps[k]]
+
+    def changed(self):
+        out = self.buffers_changed()
+        a, b = _view(self.il, self.fields), _view(self.twin, self.fields)
+        out += [f"{self.name}.{k}() {b[k]} -> {a[k]}" for k in a if a[k] != b[k]]
+        return out
 
 
 def _instances(case):
@@ -286,24 +491,60 @@ def ideal_order(case):
     return [i for i, _ in t]
 
 
+def alt_test(case):
+    """Another test list for the same recommendations: the first test item replaced by an item that was not one."""
+    tids = {i for i, _ in case["test"]}
+    extra = [i for i in UNIVERSE if i not in tids][:1]
+    return [list(p) for p in case["test"][1:]] + [[i, "3/2"] for i in extra]
+
+
+def ideal_recs(case):
+    return ideal_order(case) + [i for i in POOL if i not in {j for j, _ in case["test"]}][:2]
+
+
 def run_impl(case):
     _setup()
-    test = _test(case)
     ms = _instances(case)
-    recs = _recs(case["recs"], case)
-    obs = {"vals": [_measure(m, recs, test) for m in ms]}
-    # the same call again (a metric must not depend on how often it was evaluated)
-    obs["again"] = [_measure(m, recs, test) for m in ms]
-    # metamorphic observations for the oracle
+    keys = [mkey(s) for s in metric_specs(case)]
+    L = _Lists(case)
+    obs = {}
+    # every metric on a pair of lists that nothing has touched before (pristine representation), inputs compared afterwards
+    obs["fresh"], obs["fresh_mut"] = [], []
+    for m in ms:
+        r, t = _Watched(L.recs(case["recs"]), L.recs(case["recs"]), "recs"), _Watched(L.test(), L.test(), "test")
+        obs["fresh"].append(_measure(m, r.il, t.il))
+        obs["fresh_mut"].append((r.changed() + t.changed()) or None)
+    # the call sequence of an evaluation run: ONE pair of list objects, every metric one after another, then all of
+    # them again, then other rankings against the same test list and another test list for the same ranking
+    r, t = _Watched(L.recs(case["recs"]), L.recs(case["recs"]), "recs"), _Watched(L.test(), L.test(), "test")
+    first = None
+
+    def seq(tag, recs, test):
+        nonlocal first
+        out = []
+        for m, key in zip(ms, keys):
+            out.append(_measure(m, recs, test))
+            if first is None and (r.buffers_changed() or t.buffers_changed()):
+                first = [key, tag]
+        return out
+
+    obs["vals"] = seq("first pass", r.il, t.il)
+    obs["again"] = seq("second pass", r.il, t.il)
     if case["test"]:
-        extra = [i for i in POOL if i not in {j for j, _ in case["test"]}][:2]
-        ideal = _recs(ideal_order(case) + extra, case, ordered=True)
-        obs["ideal"] = [_measure(m, ideal, test) for m in ms]
+        obs["ideal"] = seq("ideal ranking", L.recs(ideal_recs(case), ordered=True)[0], t.il)
     if case["swap"]:
         p, q = case["swap"]
         sw = list(case["recs"])
         sw[p], sw[q] = sw[q], sw[p]
-        obs["swapped"] = [_measure(m, _recs(sw, case), test) for m in ms]
+        obs["swapped"] = seq("exchanged ranking", L.recs(sw)[0], t.il)
+    obs["alt"] = seq("other test list", r.il, L.test(alt_test(case))[0])
+    # does a test list built this way have the gain field at all (asked of lists that are never measured: an empty
+    # Arrow-backed field counts as absent in ItemList) -- for the test list and for the other test list
+    obs["has_gain"] = [x.field("rating") is not None for x in (t.twin, L.test(alt_test(case))[0])]
+    obs["third"] = seq("third pass", r.il, t.il)
+    changed = r.changed() + t.changed()
+    changed += [f"vocabulary {n}" for n, v, sn in zip(("recs", "test"), (L.vr, L.vt), L.vsnap) if v is not None and _snap(v) != sn]
+    obs["seq_mut"] = [first, changed] if (changed or first) else None
     # the discount as the configured function evaluates it
     n = max(len(case["recs"]), len(case["test"]), 1) + 3
     d = _discount(case["discount"])
@@ -363,11 +604,22 @@ def coq_term(case, obs):
     k = copt(case["k"], cnat)
     recs = f"{{| il_ordered := {cbool(case['ordered'])}; il_ids := {clist(case['recs'], cz)} |}}"
     t = ("{| tl_items := " + clist(case["test"], lambda e: f"({cz(e[0])}, {cq(fparse(e[1]))})")
-         + f"; tl_has_gain := {cbool(case['has_gain'])} |}}")
+         + f"; tl_has_gain := {cbool((obs.get('has_gain') or [case['has_gain']])[0])} |}}")
     disc = "(tbl_disc " + clist(obs["disc"], lambda v: cq(fparse(v))) + ")"
     ms = clist(metric_specs(case), lambda s: c_metric(case, s))
-    ob = clist(obs["vals"], lambda ev: f"({cnat(ev[0])}, {copt(None if ev[1] is None else fparse(ev[1]), cq)})")
-    return f"agree_all {tol} {disc} {k} {recs} {t} {ms} {ob}"
+    def agree(vals):
+        ob = clist(vals, lambda ev: f"({cnat(ev[0])}, {copt(None if ev[1] is None else fparse(ev[1]), cq)})")
+        return f"agree_all {tol} {disc} {k} {recs} {t} {ms} {ob}"
+
+    # the model is a function of identifiers and gains: the representation of the lists and the position of a call
+    # in the sequence do not enter it, so every call on these two lists is compared with the same model value
+    term = agree(obs["vals"])
+    for stage in ("fresh", "again", "third"):
+        if stage in obs and obs[stage] != obs["vals"]:
+            if any(e == 9 for e, _ in obs[stage]):
+                return "false"
+            term = f"andb ({term}) ({agree(obs[stage])})"
+    return term
 
 
 # ---------------------------------------------------------------------------------------------
@@ -408,14 +660,16 @@ def pop_quantiles(case):
     return q
 
 
-def definition(case, s, recs):
+def definition(case, s, recs, ordered=None, test=None, has_gain=None):
     """(error, value) the documentation prescribes; value None = undefined (NaN)."""
     k, m = case["k"], s["m"]
-    tids = [i for i, _ in case["test"]]
-    tg = {i: fparse(g) for i, g in case["test"]}
+    test = case["test"] if test is None else test
+    ordered = case["ordered"] if ordered is None else ordered
+    tids = [i for i, _ in test]
+    tg = {i: fparse(g) for i, g in test}
 
     def trunc():
-        if k is not None and not case["ordered"]:
+        if k is not None and not ordered:
             return None
         return recs if k is None else recs[:k]
 
@@ -447,7 +701,7 @@ def definition(case, s, recs):
         mx = sum((g ** (r - 1) for r in range(1, min(len(tids), len(L)) + 1)), Fraction(0))
         return 0, (tot / mx if mx else None)
     if m in ("dcg", "ndcg"):
-        if s["graded"] and not case["has_gain"]:
+        if s["graded"] and not (case["has_gain"] if has_gain is None else has_gain):
             return 2, None
         w = lambda r: 1 / max(disc_value(case["discount"], r), Fraction(1))  # noqa: E731
         gain = (lambda i: tg.get(i, Fraction(0))) if s["graded"] else (lambda i: Fraction(1 if i in tg else 0))
@@ -477,6 +731,25 @@ def _close(a, b, rel):
     return abs(a - b) <= rel * max(1.0, abs(b))
 
 
+def _vs_definition(case, s, ev, rel, recs, where, ordered=None, test=None, has_gain=None):
+    """One call of one metric against its documented definition -> list of (key, what)."""
+    key = mkey(s)
+    e, val = ev
+    if e == 9:
+        return [(f"exception:{key}", f"{key} raised {val} ({where})")]
+    we, wv = definition(case, s, recs, ordered=ordered, test=test, has_gain=has_gain)
+    if e != we:
+        return [(f"error:{key}", f"{key}: outcome code {e}, the documented behaviour gives {we} ({where})")]
+    if e:
+        return []
+    got, want = _num(ev), (None if wv is None else float(wv))
+    if not _close(got, want, rel):
+        nt = len(case["test"] if test is None else test)
+        return [(f"definition:{key}", f"{key} returned {got}, its documented definition gives {want} "
+                                      f"(k={case['k']}, {len(recs)} recs, {nt} test items; {where})")]
+    return []
+
+
 def oracle(case, obs):
     v = []
     specs = metric_specs(case)
@@ -484,30 +757,47 @@ def oracle(case, obs):
     claimed = case["k"] != 0        # the property speaks about k >= 1 or none
     tg = {i: fparse(g) for i, g in case["test"]}
     nonneg_pos = any(g > 0 for g in tg.values())
+    hg = obs.get("has_gain") or [case["has_gain"], case["has_gain"]]
+    swapped = None
+    if case["swap"]:
+        swapped = list(case["recs"])
+        swapped[case["swap"][0]], swapped[case["swap"][1]] = swapped[case["swap"][1]], swapped[case["swap"][0]]
     for j, s in enumerate(specs):
         key = mkey(s)
         e, val = obs["vals"][j]
+        # a measurement must leave the two lists as it found them
+        if obs.get("fresh_mut") and obs["fresh_mut"][j]:
+            v.append((f"inputs-mutated:{key}", f"{key}.measure_list changed its inputs: " + "; ".join(obs["fresh_mut"][j])[:600]))
         if e == 9:
             v.append((f"exception:{key}", f"{key} raised {val}"))
             continue
-        if obs["again"][j] != obs["vals"][j]:
-            v.append((f"repeat:{key}", f"{key} returned {obs['again'][j]} on the second identical call, {obs['vals'][j]} on the first"))
+        # the same call on the same objects again (a metric must not depend on how often, or after what, it was evaluated)
+        for stage, what in (("again", "second"), ("third", "third")):
+            if stage in obs and obs[stage][j] != obs["vals"][j]:
+                v.append((f"repeat:{key}", f"{key} returned {obs[stage][j]} on the {what} identical call on the same list objects, "
+                                           f"{obs['vals'][j]} on the first"))
+                break
         if not claimed:
             continue
-        we, wv = definition(case, s, case["recs"])
-        if e != we:
-            v.append((f"error:{key}", f"{key}: outcome code {e}, the documented behaviour gives {we}"))
+        # every call against the definition: the first in the sequence, the one on untouched lists, the other rankings
+        # measured against the same test list object, another test list against the same ranking object
+        d0 = _vs_definition(case, s, obs["vals"][j], rel, case["recs"], "first call of the sequence", has_gain=hg[0])
+        v += d0
+        if "fresh" in obs:
+            v += _vs_definition(case, s, obs["fresh"][j], rel, case["recs"], "lists never used before", has_gain=hg[0])
+        if "ideal" in obs:
+            v += _vs_definition(case, s, obs["ideal"][j], rel, ideal_recs(case), "an ideal ranking, same test list object", ordered=True, has_gain=hg[0])
+        if "swapped" in obs:
+            v += _vs_definition(case, s, obs["swapped"][j], rel, swapped, "the exchanged ranking, same test list object", has_gain=hg[0])
+        if "alt" in obs:
+            v += _vs_definition(case, s, obs["alt"][j], rel, case["recs"], "another test list, same ranking object", test=alt_test(case), has_gain=hg[1])
+        if d0 and d0[0][0].startswith("error:"):
             continue
         if e:
             continue
         got = _num(obs["vals"][j])
-        want = None if wv is None else float(wv)
-        if not _close(got, want, rel):
-            v.append((f"definition:{key}", f"{key} returned {got}, its documented definition gives {want} "
-                                           f"(k={case['k']}, {len(case['recs'])} recs, {len(case['test'])} test items)"))
         # consequences
         mono = disc_monotone(case["discount"])
-        g = patience_q(case, s) if s["m"] == "rbp" else None
         normalised = key in ("recall", "rbp-norm") or (s["m"] == "ndcg" and mono)
         if normalised and case["test"] and got is not None and not (-1e-12 <= got <= 1 + 1e-9):
             v.append((f"range:{key}", f"{key} = {got} outside [0, 1]"))
@@ -529,7 +819,12 @@ def oracle(case, obs):
                                          f"{case['recs'][case['swap'][1]]} up past irrelevant {case['recs'][case['swap'][0]]}"))
             if se == 0 and (got is None) != (sv is None):
                 v.append((f"swap:{key}", f"{key} defined on one of the two exchanged rankings only"))
-        del g
+    if obs.get("seq_mut"):
+        first, changed = obs["seq_mut"]
+        where = f"{first[0]}" if first else "sequence"
+        v.append((f"inputs-mutated:{where}", "after measuring every metric on one pair of list objects the inputs differ from identical "
+                  "lists that were never measured" + (f" (first seen after {first[0]}, {first[1]})" if first else "") + ": "
+                  + "; ".join(changed)[:600]))
     if "pop" in case and claimed:
         q = pop_quantiles(case)
         got = {i: float(fparse(x)) for i, x in obs["item_ranks"]}
@@ -590,6 +885,21 @@ def counters(case, obs):
     if case["swap"]:
         yield "swap-candidate"
     yield f"recs-len={'0' if nr == 0 else '1-3' if nr <= 3 else '4-8' if nr <= 8 else '9+'}"
+    rep = rep_of(case)
+    yield "lists=" + rep["style"]
+    yield "recs-stored=" + rep["recs"]
+    yield "test-stored=" + rep["test"]
+    if case["has_gain"]:
+        yield "gain-field=" + rep["gdtype"]
+    if rep["rscores"]:
+        yield "recs-with-scores"
+    ur, ut = unknown_ids(case)
+    yield "ids-unknown-to-vocabulary=" + ("both-lists" if ur and ut else "recs" if ur else "test" if ut else "none")
+    top = case["recs"] if not k else case["recs"][:k]
+    if rep["style"] == "shared" and ut and any(i in ur for i in top) and not any(i in tids for i in top):
+        yield "shared-vocab:unknown-id-in-top-k-and-in-test,no-hit"
+    if case["has_gain"] and rep["gdtype"] == "f32w" and gs != sorted(gs, key=fparse):
+        yield "writable-float32-gains-not-ascending"
 
 
 def sample(case, obs):
@@ -597,12 +907,27 @@ def sample(case, obs):
             "metrics": [mkey(s) for s in metric_specs(case)], "vals": obs["vals"]}
 
 
+_shrunk = 0
+
+
 def shrink(case, fails):
+    global _shrunk
+    _shrunk += 1
+    if _shrunk > 5:                     # a broken tree fails on hundreds of cases; five shrunk replays are enough
+        return case
     c = dict(case)
     for drop in ("pop",):
         d = {k: v for k, v in c.items() if k != drop}
         if fails(d):
             c = d
+    # the simplest representation that still fails
+    for edit in (lambda r: PLAIN_REP, lambda r: {**r, "gdtype": "f64"}, lambda r: {**r, "rscores": False},
+                 lambda r: {**r, "style": "shared", "vocab2": None} if r["vocab2"] is not None or r["style"] == "copy" else r,
+                 lambda r: {**r, "vocab": sorted(r["vocab"])} if r["vocab"] else r):
+        cur = rep_of(c)
+        simpler = dict(edit(cur))
+        if simpler != cur and fails({**c, "rep": simpler}):
+            c = {**c, "rep": simpler}
     if c.get("swap") is None or fails({**c, "swap": None}):
         c = {**c, "swap": None}
         r2 = common.shrink_list(c["recs"], lambda xs: fails({**c, "recs": xs}), 40)
